@@ -63,7 +63,39 @@ def check_trampolines(ctx, prog):
                     return True
                 return False
 
+            # pointers to the creator's context: the parameter and locals of pointer type initialised from it
+            ctx_ptrs = set([p_id])
+            for s_ in ir.walk_stmts(f['body']):
+                if s_.get('k') == 'decl':
+                    for v in s_['vars']:
+                        if v.get('init') is not None and T(f, v['t']).get('ptr') and any(w.get('k') == 'var' and w.get('id') in ctx_ptrs for w in walk_expr(v['init'])):
+                            ctx_ptrs.add(v['id'])
+
+            def derefs_context(e):
+                for w in walk_expr(e):
+                    if w.get('k') == 'mem' and w.get('b') is not None:
+                        b = strip(w['b'])
+                        while b.get('k') in ('cast', 'paren'):
+                            b = strip(b['e'])
+                        if b.get('k') == 'un' and b.get('op') == '*':
+                            b = strip(b['e'])
+                            while b.get('k') in ('cast', 'paren'):
+                                b = strip(b['e'])
+                        if b.get('k') == 'var' and b.get('id') in ctx_ptrs:
+                            return w
+                    if w.get('k') == 'un' and w.get('op') == '*':
+                        b = strip(w['e'])
+                        while b.get('k') in ('cast', 'paren'):
+                            b = strip(b['e'])
+                        if b.get('k') == 'var' and b.get('id') in ctx_ptrs:
+                            return w
+                return None
+
             def step(nd, st):
+                if 'ready' in st and nd.kind == 'ev' and nd.e is not None and not (nd.e.get('k') == 'bin' and nd.e.get('op') == '=' and strip_lv(nd.e['x']).get('f') == 'ready'):
+                    w_ = derefs_context(nd.e)
+                    if w_ is not None:
+                        problems.append((nd.e.get('l', 0), 'the creator\'s context is read through `%s` after `ready` was set (the creator may already have left the scope that owns it; the slot can hold another thread\'s context by then)' % pe(w_)[:40]))
                 if nd.kind == 'decl' and nd.info.get('init') is not None and any(w.get('k') == 'var' and w.get('id') == p_id for w in walk_expr(nd.info['init'])):
                     if 'ready' in st:
                         problems.append((nd.line, 'the creator\'s context is read after `ready` was set (the creator may already have left the scope that owns it)'))
@@ -296,6 +328,16 @@ def check_join(ctx, prog):
         role = f['n'] + '(%d functions):join before return' % (len(f['params']) if f['n'] == 'parallel_invoke' else 1)
         ctx.check(anyc and not bad, 'C13.join', f['pq'], role, fwhere(f), 'threads started here are joined on every path to the return',
                   '%s can return (or delete a thread) without having joined the threads it started (%s)' % (f['n'], [s_[0] for s_ in bad]))
+        # every thread object created here takes part in the join: a local Thread that is never mentioned again after its
+        # declaration cannot have been joined (its destructor detaches it: the function returns while it still runs)
+        if f['n'] == 'parallel_invoke':
+            tvars = [v for s_ in ir.walk_stmts(f['body']) if s_.get('k') == 'decl' for v in s_['vars']
+                     if T(f, v['t']).get('rec') == 'asl::Thread' and strip(v.get('init') or {}).get('k') == 'construct' and strip(v['init']).get('a')]
+            used = set(w.get('id') for w in fn_exprs(f) if w.get('k') == 'var')
+            lost = [v['n'] for v in tvars if v['id'] not in used]
+            ctx.check(not lost, 'C13.join', f['pq'], f['n'] + '(%d functions):every started thread is joined' % len(f['params']), fwhere(f),
+                      '%d thread object(s), each handed to the join' % len(tvars),
+                      '%s starts the thread `%s` and never refers to it again: it is not joined, its destructor detaches it and %s returns while that function may still be running' % (f['q'], lost[0] if lost else '', f['n']))
     ctx.floor('C13.join', n, 4)
     # ThreadGroup start/join loop over all members
     m = 0
